@@ -899,7 +899,7 @@ func structHasSync(st *types.Struct) bool {
 
 // generatedNames are the package-level variables this tool generates itself.
 var generatedNames = map[string]bool{"VerifSimYield": true, "VerifSimOnceDo": true, "VerifSimMutex": true, "VerifUnsupported": true,
-	"VerifSites": true, "VerifPkgVarNames": true, "VerifPkgTruncations": true}
+	"VerifSites": true, "VerifPkgVarNames": true, "VerifPkgTruncations": true, "verifPath": true, "VerifSimTry": true}
 
 // pkgVars lists the package-level variables of a package, sorted by name.
 func pkgVars(pi *pkgInfo) []*types.Var {
@@ -951,7 +951,15 @@ func VerifPkgState() []byte {
 		fmt.Fprintf(&sb, "%q, ", v.Name())
 	}
 	sb.WriteString("}\n\n")
-	sb.WriteString(`func verifIsSync(t reflect.Type) bool {
+	sb.WriteString(`// verifPath holds the pointers currently being followed by verifDeep.
+type verifKey struct {
+	p uintptr
+	t reflect.Type
+}
+
+var verifPath []verifKey
+
+func verifIsSync(t reflect.Type) bool {
 	p := t.PkgPath()
 	return p == "sync" || p == "sync/atomic"
 }
@@ -1004,8 +1012,20 @@ func verifDeep(out []byte, v reflect.Value, depth int) []byte {
 		if v.IsNil() {
 			return append(out, 'n')
 		}
+		// a pointer back to something that is being rendered further up (doubly
+		// linked lists, parent pointers): name the ancestor instead of unrolling
+		// the cycle down to the depth limit
+		key := verifKey{v.Pointer(), t}
+		for i := len(verifPath) - 1; i >= 0; i-- {
+			if verifPath[i] == key {
+				return append(out, fmt.Sprintf("@%d", len(verifPath)-i)...)
+			}
+		}
+		verifPath = append(verifPath, key)
 		out = append(out, '*')
-		return verifDeep(out, v.Elem(), depth+1)
+		out = verifDeep(out, v.Elem(), depth+1)
+		verifPath = verifPath[:len(verifPath)-1]
+		return out
 	case reflect.Interface:
 		if v.IsNil() {
 			return append(out, 'n')
